@@ -8,6 +8,7 @@
    (3) gating: blind_sign returns only if verify_proof returned true (otherwise the Rust code panics = refusal).
    Rejection of mismatching / edited proofs: correspondence + sweep (all non-empty U for n <= 3 / 5). *)
 From ZK Require Import Cl ClArith ClSig ClMore ClGroup ClBoudot ModelLemmas ClSpok ClSpok2 ClSpok3 ClDraws ClZk.
+From ZK Require Import ClUpdate.
 
 Theorem C14_cl_blind_sign_gated :
   forall CS BP pk sk bases zk revealed C Ct ck U ridx ds b ds',
@@ -187,3 +188,53 @@ Check (C14_blind_issuance_valid :
              (Some (revealed_of U 0 (length msgs))) ds = Ok (b, ds') ->
   verify_multiattr CS (unblind_sign b C) pk bases msgs = Ok true).
 Print Assumptions C14_blind_issuance_valid.
+
+(* re-issuing after a revealed attribute changed: the updated signature verifies on the updated vector *)
+Theorem C14_cl_update_complete :
+  forall CS b revealed C sk pk bases ridx b' msgs ext,
+  good_key pk sk ->
+  Forall (fun a => Z.gcd a (pk_N pk) = 1%Z) bases ->
+  forallb (msg_in_range CS) msgs = true -> (length msgs <= length bases)%nat ->
+  (0 <= c_rand C)%Z -> (0 <= bs_rprime b)%Z -> (two (le CS - 1) < bs_e b)%Z ->
+  (match revealed, ridx with
+   | Some rm, Some _ => extend_commitment_with_pk C rm pk bases ridx
+   | _, _ => Ok C
+   end) = Ok ext ->
+  (0 <= c_value ext)%Z ->
+  (c_value ext mod pk_N pk = (PP bases msgs * pk_b pk ^ c_rand C) mod pk_N pk)%Z ->
+  update_signature b revealed C sk pk bases ridx = Ok b' ->
+  bs_e b' = bs_e b /\ bs_rprime b' = bs_rprime b /\
+  verify_multiattr CS (unblind_sign b' C) pk bases msgs = Ok true.
+Proof. exact cl_update_complete. Qed.
+Check (C14_cl_update_complete :
+  forall CS b revealed C sk pk bases ridx b' msgs ext,
+  good_key pk sk ->
+  Forall (fun a => Z.gcd a (pk_N pk) = 1%Z) bases ->
+  forallb (msg_in_range CS) msgs = true -> (length msgs <= length bases)%nat ->
+  (0 <= c_rand C)%Z -> (0 <= bs_rprime b)%Z -> (two (le CS - 1) < bs_e b)%Z ->
+  (match revealed, ridx with
+   | Some rm, Some _ => extend_commitment_with_pk C rm pk bases ridx
+   | _, _ => Ok C
+   end) = Ok ext ->
+  (0 <= c_value ext)%Z ->
+  (c_value ext mod pk_N pk = (PP bases msgs * pk_b pk ^ c_rand C) mod pk_N pk)%Z ->
+  update_signature b revealed C sk pk bases ridx = Ok b' ->
+  bs_e b' = bs_e b /\ bs_rprime b' = bs_rprime b /\
+  verify_multiattr CS (unblind_sign b' C) pk bases msgs = Ok true).
+Print Assumptions C14_cl_update_complete.
+
+(* ... and if it also verified on the old vector the two products of powers of the bases would be congruent *)
+Theorem C14_verify_two_vectors_reduces :
+  forall CS sg pk bases msgs msgs',
+  (0 < pk_N pk)%Z -> Z.gcd (pk_b pk) (pk_N pk) = 1%Z -> Z.gcd (pk_c pk) (pk_N pk) = 1%Z -> (0 <= pk_c pk)%Z -> (0 <= s_s sg)%Z ->
+  verify_multiattr CS sg pk bases msgs = Ok true ->
+  verify_multiattr CS sg pk bases msgs' = Ok true ->
+  eqm (pk_N pk) (PP bases msgs) (PP bases msgs').
+Proof. exact verify_two_vectors_reduces. Qed.
+Check (C14_verify_two_vectors_reduces :
+  forall CS sg pk bases msgs msgs',
+  (0 < pk_N pk)%Z -> Z.gcd (pk_b pk) (pk_N pk) = 1%Z -> Z.gcd (pk_c pk) (pk_N pk) = 1%Z -> (0 <= pk_c pk)%Z -> (0 <= s_s sg)%Z ->
+  verify_multiattr CS sg pk bases msgs = Ok true ->
+  verify_multiattr CS sg pk bases msgs' = Ok true ->
+  eqm (pk_N pk) (PP bases msgs) (PP bases msgs')).
+Print Assumptions C14_verify_two_vectors_reduces.
